@@ -5,6 +5,7 @@ use std::time::{Duration, Instant};
 
 #[test]
 fn verif_d10_second_client_accepted_beyond_max_active() {
+    // (a fixed port: the client needs the address before the server exists in D9; kept the same style here)
     let server_addr = "127.0.0.1:18992";
     let mut scfg: uflow::server::Config = Default::default();
     scfg.max_active_connections = 1;
